@@ -23,7 +23,12 @@ func c08World() *Env {
 		env.AddValidator(i, 10_000_000, ChainA) // equal stakes, equal metrics: every ranking is a tie
 	}
 	env.SetupFees(sdkmath.LegacyMustNewDecFromStr("1.1"), 0, 1, 2)
-	if _, err := env.Valset.TriggerSnapshotBuild(env.Ctx); err != nil {
+	s1, err := env.Valset.TriggerSnapshotBuild(env.Ctx)
+	if err != nil {
+		panic(err)
+	}
+	// the first snapshot is live on the chain (so later snapshots go through the keep-warm rule)
+	if err := env.Valset.SetSnapshotOnChain(env.Ctx, s1.Id, ChainA); err != nil {
 		panic(err)
 	}
 	return env
@@ -41,7 +46,9 @@ func c08Events(ctx sdk.Context) []string {
 	return out
 }
 
-func c08Run(env *Env, op int, texts [3]string) (res []string) {
+func c08Run(env *Env, op int, texts [3]string, daysLater int64) (res []string) {
+	// the block under test is produced some time after the world was set up
+	env.Ctx = env.Ctx.WithBlockTime(env.Ctx.BlockTime().Add(sdkSeconds(daysLater * 86400)))
 	defer func() {
 		if r := recover(); r != nil {
 			res = append(res, "panic")
@@ -67,6 +74,9 @@ func c08Run(env *Env, op int, texts [3]string) (res []string) {
 			for _, v := range s.Validators {
 				res = append(res, v.Address.String()+"="+v.ShareCount.String())
 			}
+			// was the new snapshot published to the chain (a valset update enqueued)?
+			msgs, _ := env.Consensus.GetMessagesFromQueue(env.Ctx, c06Queue, 0)
+			res = append(res, "queued="+sdkmath.NewInt(int64(len(msgs))).String())
 		}
 	case 2: // evidence tally: every partition of the three validators over three distinct reports
 		msg := &evmtypes.Message{TurnstoneID: "compass-" + ChainA, ChainReferenceID: ChainA, Assignee: Vals[0].String(), AssigneeRemoteAddress: models.EthAddrs[0], AssignedAtBlockHeight: sdkmath.NewInt(100),
@@ -108,6 +118,7 @@ func c08Run(env *Env, op int, texts [3]string) (res []string) {
 
 func VerifC08_Twin() {
 	op := sym.Choice("operation", 4)
+	daysLater := []int64{0, 29, 31}[sym.Choice("days-later", 3)]
 	var texts [3]string
 	if op == 2 {
 		for v := range texts {
@@ -130,7 +141,7 @@ func VerifC08_Twin() {
 			_, _ = env.Metrix.Validators(qctx, nil)
 		}
 		sym.MapOrder(node == 1)
-		res[node] = c08Run(env, op, texts)
+		res[node] = c08Run(env, op, texts, daysLater)
 		sym.MapOrder(false)
 		ev[node] = c08Events(env.Ctx)
 		envs[node] = env
